@@ -250,7 +250,7 @@ func (j *textJudge) roundTrip(b ref.Bits, n ref.Num, text, producer string, mk f
 func runC06(c *Ctx) {
 	c.Parallel("grid", ref.NearestEven, func(sh *mon.Shard, r *gen.RNG) {
 		j := &textJudge{ctx: c, sh: sh}
-		reps := c.N(3, 60)
+		reps := c.N(6, 80)
 		idx := 0
 		for rep := 0; rep < reps; rep++ {
 			for nd := 1; nd <= 35; nd++ {
@@ -302,7 +302,7 @@ func runC06(c *Ctx) {
 	})
 	c.Parallel("mixed", ref.NearestEven, func(sh *mon.Shard, r *gen.RNG) {
 		j := &textJudge{ctx: c, sh: sh}
-		n := c.N(4000, 80000)
+		n := c.N(12000, 150000)
 		for i := 0; i < n; i++ {
 			switch i % 4 {
 			case 0:
